@@ -385,17 +385,63 @@ def hdr_hostile(value):
     return any(_ctl(c) and c != "\t" for c in value)
 
 
+# ---- the endpoint's own authentication (`auth:` of the identity / JWKS / introspection / metadata endpoint): heimdall
+# authenticates itself with an api key, with basic auth, or with a token it requests from an authorization server
+# (oauth2_client_credentials). Only the last can fail at request time — AFTER the credential of the client was found:
+# Endpoint.CreateRequest reports "failed to authenticate request" (an internal error caused by what the token request
+# ran into), which the authenticators attach to "failed creating request" (behind a metadata endpoint: metadataFailed).
+# How the authorization server answers heimdall's token request, per variant (the harness' token endpoint answers
+# under /token/<variant>); the error these answers lead to is the MODEL's (TokenAnswer.failure), compared with the real
+# clientcredentials / endpoint packages on every run.
+RFC6749_ERRORS = ["invalid_request", "invalid_client", "invalid_grant", "unauthorized_client", "unsupported_grant_type",
+                  "invalid_scope"]
+CC_ANSWERS = {"ok": {"kind": "token"}}
+for _code in RFC6749_ERRORS + ["temporarily_unavailable", ""]:
+    CC_ANSWERS["400:" + _code] = {"kind": "badRequest", "error": _code}
+CC_ANSWERS.update({
+    "400text": {"kind": "badRequest"},                    # 400 with a body that is no JSON
+    "401": {"kind": "status", "code": 401}, "403": {"kind": "status", "code": 403},
+    "500": {"kind": "status", "code": 500}, "503": {"kind": "status", "code": 503},
+    "dead": {"kind": "unreachable"},
+    "200text": {"kind": "undecodable"},                   # 200 with a body that is no JSON
+    "200error:invalid_scope": {"kind": "errorDocument", "error": "invalid_scope"},
+    "200error:server_error": {"kind": "errorDocument", "error": "server_error"},
+})
+AUTH_KINDS = ["api_key", "basic_auth"] + ["cc:" + v for v in CC_ANSWERS]
+ENDPOINT_AUTH_ASSUMPTION = (
+    "the endpoint's own authentication (auth: api_key / basic_auth / oauth2_client_credentials of the identity, JWKS, "
+    "introspection and metadata endpoints): how the authorization server answers heimdall's token request (200 with a "
+    "token, 400 with each error code of RFC 6749 5.2 and others, 400 / 200 without JSON, 200 with an error document, "
+    "401 / 403 / 500 / 503, no answer) is a parameter of the model (TokenAnswer); which error Config.Token, "
+    "Endpoint.CreateRequest and MetadataEndpoint.Get build from it is modelled (TokenAnswer.failure, "
+    "authenticationFailed, metadataRequestFailed: the error document of the authorization server matches no heimdall "
+    "sentinel) and compared with the real packages on every run; the time-out of the token request and an unreadable "
+    "response body are in the model, not exercised")
+
+
+def _auth_fail(mech):
+    """the description of the failing authentication of the endpoint's own request, if it fails"""
+    a = mech.get("auth") or ""
+    if a.startswith("cc:") and CC_ANSWERS[a[3:]]["kind"] != "token":
+        return {"type": "oauth2_client_credentials", "answer": CC_ANSWERS[a[3:]]}
+    return None
+
+
 def _tpl_fail(mech, rendered, failed_meta, request_failed, unreachable, status):
-    """the failure caused by rendering the credential / its issuer into the URL or a header of the request to the
-    (metadata) endpoint, if any: (site, cause)"""
-    if rendered is None or not (mech.get("utpl") or mech.get("htpl")):
-        return None
-    eff = url_effect(mech.get("utpl"), rendered)
-    bad_header = bool(mech.get("htpl")) and hdr_hostile(rendered)
+    """the failure of creating / sending the request to the (metadata) endpoint, if any: (site, cause) — caused by
+    rendering the credential / its issuer into the URL or a header, or by the endpoint's own authentication.
+    Order of Endpoint.CreateRequest: URL rendered, request instance created, authentication strategy applied, headers
+    rendered; then the request is sent."""
+    templated = rendered is not None and bool(mech.get("utpl") or mech.get("htpl"))
+    eff = url_effect(mech.get("utpl"), rendered) if templated else None
+    bad_header = templated and bool(mech.get("htpl")) and hdr_hostile(rendered)
+    auth = _auth_fail(mech)
     if mech.get("meta"):
-        # the metadata endpoint carries the template; MetadataEndpoint.Get wraps what went wrong
+        # the metadata endpoint carries the template / the authentication; MetadataEndpoint.Get wraps what went wrong
         if eff == "unmakable":
             return (failed_meta, chain(kind("internal"), REQ_CAUSE))
+        if auth:
+            return (failed_meta, {"endpointAuth": auth, "via": "metadata"})
         if bad_header:
             return (failed_meta, chain(kind("communication"), FOREIGN))
         if eff == "badline":
@@ -403,6 +449,10 @@ def _tpl_fail(mech, rendered, failed_meta, request_failed, unreachable, status):
         return None
     if eff == "unmakable":
         return (request_failed, REQ_CAUSE)
+    if auth:
+        return (request_failed, {"endpointAuth": auth})
+    if not templated:
+        return None
     if bad_header or mech.get("ep") == "dead":
         return (unreachable, FOREIGN)
     if eff == "badline":
@@ -426,7 +476,9 @@ def verdict(site_cause=None, ok=None):
         return {"ok": ok}
     site, cause = site_cause
     v = {"fail": site}
-    if cause is not None:
+    if isinstance(cause, dict) and "endpointAuth" in cause:
+        v.update(cause)       # the cause is the model's: the failure of the endpoint's own authentication
+    elif cause is not None:
         v["cause"] = cause
     return v
 
@@ -622,8 +674,9 @@ def candidates(req):
     for n, v in query_of(req) + cookies_of(req):
         res.add(trim(v))
     body = req.get("body")
-    if body and body.get("parsed") is not None:
-        for n, bv in body["parsed"]:
+    readings = [] if not body else [body.get("parsed")] + list((body.get("reads") or {}).values())
+    for parsed in readings:
+        for n, bv in parsed or []:
             if bv["t"] == "str":
                 res.add(trim(bv["v"]))
             elif bv["t"] in ("strs", "anys"):
@@ -667,8 +720,54 @@ def world_for(mechs, reqs):
     return w
 
 
-def render_body(kind_, fields):
-    """fields: list of (name, python value for JSON | list of strings for forms) -> (ct, raw, parsed)"""
+# ---- the Content-Type of a request with a body. contenttype.NewDecoder chooses the decoder by what the header value
+# CONTAINS ("json", else "application/x-www-form-urlencoded", else "yaml"; case-sensitively; all Content-Type lines
+# joined by ","): that choice is the model's (decoderFor); the generator only says how each decoder reads the octets.
+CT_OWN = {
+    "json": ["application/json", "application/json; charset=utf-8", "application/vnd.api+json",
+             "application/problem+json", "application/merge-patch+json", "application/ld+json; profile=\"x\"",
+             "text/json", "application/x-json", "application/json;q=0.9", "application/vnd.heimdall.v1+json",
+             ["text/plain", "application/json"], ["application/json", "application/json"],
+             "text/plain, application/scim+json", "application/x-www-form-urlencoded; like=json",
+             "application/yaml+json", "json"],
+    "form": ["application/x-www-form-urlencoded", "application/x-www-form-urlencoded; charset=UTF-8",
+             "application/x-www-form-urlencoded;charset=utf-8", ["text/plain", "application/x-www-form-urlencoded"],
+             "application/x-www-form-urlencoded, application/yaml", "xapplication/x-www-form-urlencodedx"],
+    "yaml": ["application/yaml", "application/x-yaml", "text/yaml", "text/x-yaml; charset=utf-8",
+             "application/vnd.oai.openapi+yaml", ["text/plain", "application/yaml"], "yaml"],
+}
+# no decoder: the body is a string for the extractors, whatever it contains
+CT_NONE = [None, "", "text/plain", "application/octet-stream", "application/xml", "APPLICATION/JSON", "application/Json",
+           "application/JSON; charset=utf-8", "Application/X-WWW-Form-Urlencoded", "application/YAML", "text/Yaml",
+           "multipart/form-data; boundary=x", "application/jso", "application/x-www-form-urlencode",
+           "application/j son", ["application/js", "on"], "application/x-ndjso"]
+
+
+def ct_lines(ct):
+    return [] if ct is None else [ct] if isinstance(ct, str) else list(ct)
+
+
+def _plain(raw):
+    return all(0x20 <= ord(c) < 0x7f or c == "\n" for c in raw)
+
+
+def render_body(kind_, fields, ct="own"):
+    """fields: list of (name, python value for JSON | list of strings for forms) -> the body of a request:
+    ct (one Content-Type line, a list of lines, or None: no such header), raw, fmt (the format the octets are written
+    in), parsed (what the decoder of that format reads: a list of fields, or None if it fails) and reads (what each of
+    the three decoders reads — ground truth by construction: a JSON object is a YAML flow mapping of the same content;
+    a form body / a block-style YAML document is no JSON; a form body is a YAML scalar, no mapping; url.ParseQuery on
+    a JSON / YAML document yields no pair named like a source). ct="own": the usual media type of the format."""
+    usual = {"json": "application/json", "form": "application/x-www-form-urlencoded", "yaml": "application/yaml",
+             "text": "text/plain", "badjson": "application/json", "jsonarray": "application/json"}
+    ct = usual[kind_] if ct == "own" else ct
+
+    def body(fmt, raw, parsed, **other):
+        reads = {"json": None, "form": None, "yaml": None}
+        if fmt in reads:
+            reads[fmt] = parsed
+        reads.update(other)
+        return {"ct": ct, "raw": raw, "fmt": fmt, "parsed": parsed, "reads": reads}
     if kind_ == "json":
         raw = json.dumps(dict(fields))
         parsed = []
@@ -679,7 +778,12 @@ def render_body(kind_, fields):
                 parsed.append([n, {"t": "anys", "v": [x if isinstance(x, str) else None for x in v]}])
             else:
                 parsed.append([n, {"t": "other"}])
-        return {"ct": "application/json", "raw": raw, "parsed": parsed}
+        b = body("json", raw, parsed)
+        if _plain(raw):
+            b["reads"]["yaml"] = parsed
+        else:
+            b["noyaml"] = True         # a raw control character: what yaml.v3 says is not part of the ground truth
+        return b
     if kind_ == "form":
         from urllib.parse import quote_plus
         pairs = []
@@ -688,7 +792,7 @@ def render_body(kind_, fields):
             for v in vs:
                 pairs.append(quote_plus(n) + "=" + quote_plus(v, safe="@"))
             parsed.append([n, {"t": "strs", "v": list(vs)}])
-        return {"ct": "application/x-www-form-urlencoded", "raw": "&".join(pairs), "parsed": parsed}
+        return body("form", "&".join(pairs), parsed)
     if kind_ == "yaml":
         # block style YAML: strings, lists of strings, numbers
         lines, parsed = [], []
@@ -702,14 +806,45 @@ def render_body(kind_, fields):
             else:
                 lines.append(f"{n}: {json.dumps(v)}")
                 parsed.append([n, {"t": "other"}])
-        return {"ct": "application/yaml", "raw": "\n".join(lines) + "\n", "parsed": parsed}
+        return body("yaml", "\n".join(lines) + "\n", parsed)
     if kind_ == "text":
-        return {"ct": "text/plain", "raw": "access_token=" + (fields[0][1] if fields else "x"), "parsed": None}
+        # not url-encoded, announced as text: no decoder is asked (only Content-Types without decoder are generated)
+        return dict(body("text", "access_token=" + (fields[0][1] if fields else "x"), None), nodecoder=True)
     if kind_ == "badjson":
-        return {"ct": "application/json", "raw": "{\"access_token\": ", "parsed": None}
+        return body("badjson", "{\"access_token\": ", None)
     if kind_ == "jsonarray":
-        return {"ct": "application/json", "raw": "[\"access_token\"]", "parsed": None}
+        return body("jsonarray", "[\"access_token\"]", None)
     raise ValueError(kind_)
+
+
+def content_types_for(body):
+    """(own spellings, Content-Types selecting another decoder, Content-Types without decoder) that may stand in front
+    of this body: only combinations whose reading is ground truth by construction"""
+    fmt = body["fmt"]
+    if body.get("nodecoder"):
+        return [], [], CT_NONE
+    own = CT_OWN.get(fmt, [])
+    others = []
+    for f, cts in CT_OWN.items():
+        if f != fmt and not (f == "yaml" and body.get("noyaml")):
+            others += cts[:5]
+    return own, others, CT_NONE
+
+
+def choose_content_type(rng, body):
+    own, others, none = content_types_for(body)
+    r = rng.random()
+    if own and r < 0.45:
+        body["ct"] = own[0]
+    elif own and r < 0.75:
+        body["ct"] = rng.choice(own)
+    elif others and r < 0.87:
+        body["ct"] = rng.choice(others)
+    else:
+        body["ct"] = rng.choice(none)
+    if body["ct"] is None:
+        del body["ct"]
+    return body
 
 
 # ---------------------------------------------------------------------------------------------------------------
@@ -791,6 +926,9 @@ def gen_mech(rng, idx, typ=None):
             m["iss"] = m["iss"] + [ISS_ODD_OK]
     if rng.random() < 0.12:
         m["htpl"] = True
+    # the endpoint demands that heimdall authenticates itself
+    if rng.random() < 0.16:
+        m["auth"] = rng.choice(AUTH_KINDS + ["cc:ok", "cc:ok"])
     return m
 
 
@@ -923,6 +1061,7 @@ def finish_body(rng, req):
         req["body"] = render_body("yaml", out)
     else:
         req["body"] = render_body(rng.choice(["text", "badjson", "jsonarray"]), [(n, v) for n, v in uniq])
+    choose_content_type(rng, req["body"])
     req["method"] = "POST"
 
 
@@ -1237,4 +1376,156 @@ def url_template_named_cases():
         "}}; generic with <url>?s={{ .AuthenticationData }} and the same header: a control character in the value makes "
         "url.Parse resp. net/http refuse the request before it is sent, a blank in the query makes the server refuse the "
         "request line; the query is not checked for escapes. Whatever goes wrong after the credential was found is final")
+    return res
+
+
+# ---------------------------------------------------------------------------------------------------------------
+# systematic: credentials in a body parameter x the formats of the body x the spellings of its media type, followed by
+# `anonymous`
+
+BODY_CREDS = {"jwt": ("@Jok@", "@Jbadsig@"), "oauth2_introspection": ("opq-alice", "opq-inactive"),
+              "generic": ("sess-carol", "sess-401")}
+
+
+def _body_fields(fmt, name, value):
+    return [(name, [value])] if fmt == "form" else [(name, value)]
+
+
+def body_request(fmt, name, value, ct):
+    b = render_body(fmt, _body_fields(fmt, name, value), ct=ct)
+    if b.get("ct") is None:
+        b.pop("ct", None)
+    return {"method": "POST", "headers": [], "query": [], "cookies": [], "body": b}
+
+
+def media_type_cases(with_override=True):
+    cases = []
+    anon = _std_mech("anonymous", 9, None)
+    for typ in ("jwt", "oauth2_introspection", "generic"):
+        for fb, inverted in ((None, False), (None, True), (True, False)) if with_override else ((None, False),):
+            m = _std_mech(typ, 0, fb)
+            # jwt, oauth2_introspection: the default sources (Authorization header, access_token query / body parameter)
+            m["src"] = None if typ != "generic" else [{"k": "cookie", "name": "sess"}, {"k": "body", "name": "access_token"}]
+            reqs = []
+            for fmt in ("json", "form", "yaml"):
+                probe = render_body(fmt, _body_fields(fmt, "access_token", "x"))
+                own, others, none = content_types_for(probe)
+                for ct in own + others + none:
+                    for cred in BODY_CREDS[typ]:
+                        reqs.append(body_request(fmt, "access_token", cred, ct))
+            for k in ("text", "badjson", "jsonarray"):
+                probe = render_body(k, [("access_token", BODY_CREDS[typ][1])])
+                own, others, none = content_types_for(probe)
+                for ct in (own + others + none)[::3]:
+                    reqs.append({"method": "POST", "headers": [], "query": [], "cookies": [],
+                                 "body": {x: y for x, y in dict(probe, ct=ct).items() if y is not None or x != "ct"}})
+            reqs.append(_rq())
+            steps = [{"ref": "a0"}, {"ref": "a9"}]
+            if inverted:
+                steps[0]["fb"] = not m.get("fb", False)
+            cases.append(assemble([m, anon], steps, reqs))
+    return cases
+
+
+# ---------------------------------------------------------------------------------------------------------------
+# systematic: the endpoint demands that heimdall authenticates itself (api key, basic auth, a token requested from an
+# authorization server that answers in every way), followed by `anonymous`
+
+def endpoint_auth_cases(with_override=True):
+    cases = []
+    anon = _std_mech("anonymous", 9, None)
+    variants = [("generic", None)] + [(t, meta) for t in ("jwt", "oauth2_introspection") for meta in (None, "ok")]
+    for typ, meta in variants:
+        for auth in AUTH_KINDS:
+            for fb, inverted in ((None, False), (None, True), (True, False)) if with_override else ((None, False),):
+                m = dict(_std_mech(typ, 0, fb), auth=auth)
+                if meta:
+                    m["meta"] = meta
+                if typ == "generic":
+                    reqs = [_rq(cookies=[("sess", v)]) for v in ("sess-carol", "sess-401", "sess-unknown")]
+                elif typ == "jwt":
+                    reqs = [_rq([("Authorization", "Bearer " + t)]) for t in (PH("ok"), PH("badsig"), PH("nokid"), "opq-alice")]
+                else:
+                    reqs = [_rq([("X-Token", "Bearer " + t)]) for t in ("opq-alice", "opq-inactive", "opq-unknown")]
+                reqs.append(_rq())
+                steps = [{"ref": "a0"}, {"ref": "a9"}]
+                if inverted:
+                    steps[0]["fb"] = not m.get("fb", False)
+                cases.append(assemble([m, anon], steps, reqs))
+    return cases
+
+
+def round5_named_cases():
+    """the cases stored as corpus/C04/32… – 35…"""
+    anon = _std_mech("anonymous", 9, None)
+    res = {}
+    jwt = _std_mech("jwt", 0, None)
+    cts = ["application/vnd.api+json", "application/problem+json; charset=utf-8", "application/merge-patch+json",
+           ["text/plain", "application/json"], "application/json", "APPLICATION/JSON", "text/plain", None]
+    res["32_seed_token_in_a_json_body_with_a_structured_syntax_suffix_is_not_missing_credentials"] = assemble(
+        [jwt, anon], [{"ref": "a0"}, {"ref": "a9"}],
+        [body_request("json", "access_token", t, ct) for ct in cts for t in ("@Jbadsig@", "@Jok@")] + [_rq()],
+        "minimal reproduction of seed s5/C04-a (contenttype.NewDecoder selects the decoder by mime.ParseMediaType and an "
+        "exact list of media types instead of by what the Content-Type contains): a jwt authenticator with the default "
+        "sources (Authorization header, access_token query and BODY parameter) followed by anonymous; the token stands "
+        "in a JSON body announced as application/vnd.api+json, application/problem+json; charset=utf-8, "
+        "application/merge-patch+json, or by two Content-Type lines (text/plain, application/json): the value contains "
+        "`json`, the body is decoded, the token is FOUND — one with a bad signature is rejected finally, a valid one "
+        "yields its subject, never anonymous. Controls: application/json; APPLICATION/JSON, text/plain and no "
+        "Content-Type name no decoder (the comparison is case-sensitive): the body is a string, the request carries no "
+        "credentials and reaches anonymous; a request without body")
+    intro = dict(_std_mech("oauth2_introspection", 0, False), src=None)
+    gen = dict(_std_mech("generic", 1, None), src=[{"k": "body", "name": "token"}])
+    res["33_body_parameters_are_found_whatever_the_spelling_of_the_media_type"] = assemble(
+        [intro, gen, anon], [{"ref": "a0"}, {"ref": "a1"}, {"ref": "a9"}],
+        [body_request("form", "access_token", "opq-inactive", "application/x-www-form-urlencoded; charset=UTF-8"),
+         body_request("form", "access_token", "opq-inactive", ["text/plain", "application/x-www-form-urlencoded"]),
+         body_request("form", "access_token", "opq-inactive", "Application/X-WWW-Form-Urlencoded"),
+         body_request("yaml", "token", "sess-401", "application/vnd.oai.openapi+yaml"),
+         body_request("yaml", "token", "sess-carol", "text/x-yaml; charset=utf-8"),
+         body_request("json", "token", "sess-401", "application/yaml"),
+         body_request("json", "token", "sess-401", "application/yaml+json"),
+         body_request("json", "access_token", "opq-alice", "application/x-www-form-urlencoded; like=json"),
+         body_request("form", "access_token", "opq-alice", "application/json"),
+         body_request("yaml", "token", "sess-carol", "application/x-www-form-urlencoded"), _rq()],
+        "the decoder is chosen by what the Content-Type contains — json, else application/x-www-form-urlencoded, else "
+        "yaml — whatever parameters, structured syntax suffixes or further media types surround it; a JSON object "
+        "announced as YAML is read by the YAML decoder (the same content); a form body announced as JSON, a YAML "
+        "document announced as a form are undecodable resp. carry no parameter of that name: no credentials")
+    g = dict(_std_mech("generic", 0, None), src=[{"k": "header", "name": "Authorization", "scheme": "Bearer"}],
+             lifespan=False, auth="cc:400:invalid_scope")
+    res["34_seed_failing_endpoint_authentication_is_not_missing_credentials"] = assemble(
+        [g, anon], [{"ref": "a0"}, {"ref": "a9"}],
+        [_rq([("Authorization", "Bearer " + v)]) for v in ("sess-carol", "sess-unknown")] + [_rq()],
+        "minimal reproduction of seed s5/C04-b (TokenErrorResponse gains an Is method that matches ErrArgument for "
+        "invalid_request / invalid_scope / unsupported_grant_type): the identity endpoint of a generic authenticator "
+        "demands oauth2_client_credentials, the authorization server answers heimdall's token request with 400 "
+        "invalid_scope. The session in the Authorization header is FOUND; no request to the identity endpoint can be "
+        "authenticated (internal error caused by a communication error) — final without allow_fallback_on_error, "
+        "anonymous must not be consulted, for a known and for an unknown session alike; a request without credentials "
+        "reaches anonymous")
+    mechs, steps = [], []
+    for i, auth in enumerate(["cc:400:invalid_request", "cc:400:unsupported_grant_type", "cc:400:invalid_client",
+                              "cc:400text", "cc:503", "cc:dead", "cc:200text", "cc:200error:invalid_scope", "cc:ok",
+                              "api_key", "basic_auth"]):
+        typ = ("jwt", "oauth2_introspection", "generic")[i % 3]
+        m = dict(_std_mech(typ, i, True), auth=auth)
+        if typ != "generic" and i % 2:
+            m["meta"] = "ok"
+        if typ == "oauth2_introspection":
+            m["src"] = None
+        if typ == "generic":
+            m["src"] = [{"k": "header", "name": "Authorization", "scheme": "Bearer"}]
+            m["lifespan"] = False
+        mechs.append(m)
+        steps.append({"ref": m["id"]})
+    last = _std_mech("anonymous", 20, None)
+    res["35_every_answer_of_the_authorization_server_to_heimdalls_token_request"] = assemble(
+        mechs + [last], steps + [{"ref": "a20"}],
+        [_rq([("Authorization", "Bearer " + v)]) for v in ("@Jok@", "opq-alice", "sess-carol", "sess-unknown")] + [_rq()],
+        "a chain of jwt / oauth2_introspection / generic authenticators (directly and behind a metadata endpoint) whose "
+        "endpoints demand oauth2_client_credentials, each with another answer of the authorization server (400 with "
+        "error codes, 400 / 200 without JSON, 200 with an error document, 503, no answer), api_key, basic_auth; all "
+        "allow fallback, so every one of them is consulted: none of the failures is an argument error, the sentinels "
+        "are the model's")
     return res
